@@ -484,16 +484,22 @@ func tryReplay(eng *Engine, f *FuncVC, o *Oblig, v *Verdict, dir, repo string, t
 		os.WriteFile(path, b, 0o644)
 		return ReplayResult{Path: path, Confirmed: confirmed}
 	}
+	relaxed := false
 	if v.Status != "sat" {
-		return finish(false, "no model: the solvers answered "+v.Status+" (undischarged obligation, no counterexample)")
+		// no model from the full query (quantified context): look for a candidate input in the quantifier-free relaxation;
+		// the candidate counts only if it reproduces on the real code
+		relaxed = true
 	}
 	switch o.Kind {
-	case "idx", "slice", "nil", "div", "assert", "makelen", "panic", "post", "shift":
+	case "idx", "slice", "nil", "div", "assert", "makelen", "panic", "post", "shift", "alloc":
 	default:
 		return finish(false, "obligation kind "+o.Kind+" refers to an intermediate state; no whole-function input is derived for it")
 	}
-	src, args, err := buildReplayTest(eng, f, o, timeoutMs)
+	src, args, err := buildReplayTest(eng, f, o, timeoutMs, relaxed)
 	if err != nil {
+		if relaxed {
+			return finish(false, "no model: the solvers answered "+v.Status+" on the full query and no candidate input came out of its quantifier-free relaxation ("+err.Error()+")")
+		}
 		return finish(false, "no replayable input derived: "+err.Error())
 	}
 	rec["model_args"] = args
@@ -504,6 +510,12 @@ func tryReplay(eng *Engine, f *FuncVC, o *Oblig, v *Verdict, dir, repo string, t
 	rec["go_test_output"] = truncate(out, 4000)
 	if ok && strings.Contains(out, "REPLAY-CONFIRMED") {
 		return finish(true, "the counterexample reproduces on the real code")
+	}
+	if o.Kind == "alloc" || o.Kind == "makelen" {
+		if strings.Contains(out, "out of memory") || strings.Contains(out, "len out of range") || strings.Contains(out, "cap out of range") || strings.Contains(out, "cannot allocate memory") {
+			rec["go_test_output"] = truncate(out, 1500)
+			return finish(true, "the counterexample makes the real code request an allocation the runtime refuses (fatal out-of-memory / makeslice out of range)")
+		}
 	}
 	return finish(false, "the derived input did not reproduce the failure on the real code")
 }
@@ -525,7 +537,18 @@ func runOverlayTest(repo, pkgPath, testFile, run string, timeoutS int) (string, 
 	return string(out), err == nil || strings.Contains(string(out), "REPLAY-")
 }
 
-func buildReplayTest(eng *Engine, f *FuncVC, o *Oblig, timeoutMs int) (string, map[string]string, error) {
+func stripQuantified(script string) string {
+	var out []string
+	for _, l := range strings.Split(script, "\n") {
+		if strings.HasPrefix(l, "(assert") && (strings.Contains(l, "(forall ") || strings.Contains(l, "(exists ")) {
+			continue
+		}
+		out = append(out, l)
+	}
+	return strings.Join(out, "\n")
+}
+
+func buildReplayTest(eng *Engine, f *FuncVC, o *Oblig, timeoutMs int, relaxed bool) (string, map[string]string, error) {
 	fn := f.Fn
 	if fn.Pkg == nil || fn.Signature.TypeParams() != nil || len(fn.TypeArgs()) > 0 {
 		return "", nil, fmt.Errorf("generic or synthetic function")
@@ -533,6 +556,12 @@ func buildReplayTest(eng *Engine, f *FuncVC, o *Oblig, timeoutMs int) (string, m
 	// script: declarations + the negated obligation, first with small-input side constraints
 	base := f.Script([]*Oblig{}, timeoutMs, false)
 	goal := "(assert " + and(o.Reach, not(o.Goal)) + ")\n"
+	if relaxed {
+		base = stripQuantified(base)
+		if strings.Contains(goal, "(forall ") || strings.Contains(goal, "(exists ") {
+			return "", nil, fmt.Errorf("the obligation itself is quantified")
+		}
+	}
 	var small []string
 	for i, p := range fn.Params {
 		for j, l := range leaves(p.Type()) {
@@ -646,6 +675,12 @@ func buildReplayTest(eng *Engine, f *FuncVC, o *Oblig, timeoutMs int) (string, m
 			body.WriteString("\t" + call + "\n")
 		}
 		body.WriteString("\tif !(" + expr + ") {\n\t\tfmt.Println(\"REPLAY-CONFIRMED clause is false:\", " + strconv.Quote(o.Text) + ")\n\t} else {\n\t\tfmt.Println(\"REPLAY-NOT-CONFIRMED\")\n\t}\n")
+	} else if o.Kind == "alloc" {
+		body.WriteString("\tvar zzm0, zzm1 runtime.MemStats\n\truntime.GC()\n\truntime.ReadMemStats(&zzm0)\n")
+		body.WriteString("\t" + call + "\n")
+		body.WriteString("\truntime.ReadMemStats(&zzm1)\n\tzzInput := " + fmt.Sprintf("%d", 0) + "\n\t_ = zzInput\n")
+		body.WriteString("\tif zzm1.TotalAlloc-zzm0.TotalAlloc > 1<<20 {\n\t\tfmt.Println(\"REPLAY-CONFIRMED allocated bytes:\", zzm1.TotalAlloc-zzm0.TotalAlloc)\n\t} else {\n\t\tfmt.Println(\"REPLAY-NOT-CONFIRMED allocated bytes:\", zzm1.TotalAlloc-zzm0.TotalAlloc)\n\t}\n")
+		m.imports["runtime"] = "runtime"
 	} else {
 		body.WriteString("\t" + call + "\n\tfmt.Println(\"REPLAY-NOT-CONFIRMED (no panic)\")\n")
 	}
